@@ -10,6 +10,7 @@ LEVEL_TEXT = ("Differential execution monitoring: each generated query runs on D
               "optimizer.RULES (applied one rule at a time by the harness exactly as optimize() does, plus one call of the "
               "real optimize()) and of every (qualify, rule) pair runs on the same database; rows (multiset, or sequence "
               "under a total ORDER BY) and column names must be unchanged. The first differing prefix names the rule.")
+LEVEL_TEXT += (' The workload includes derived tables on the null-supplying side (bare-column projections), correlated references below derived tables, NATURAL JOINs and three-valued observers of predicates.')
 LEVEL_NOTE = "trusts DuckDB 1.5.5 (cross-checked against itself with its optimizer disabled before a mismatch is blamed on sqlglot)"
 TECHNIQUE = "runtime monitoring: differential execution of original vs optimized SQL per rule prefix on DuckDB"
 RULE = ("seeded typed query generator (joins of every kind, derived tables, CTEs used once/many times, correlated and "
